@@ -25,9 +25,11 @@ def snapshot_diff(pre: dict, post: dict) -> list[tuple[str, str]]:
         x, y = a.get(name), b.get(name)
         if x is None or y is None:
             present = x if x is not None else y
-            # a missing array equals an all-zero one (ASE's own reading of e.g. momenta)
-            if any(present[2]):
-                out.append((f"arrays:{name}", "array appeared/disappeared with non-zero content"))
+            # a missing momenta array equals an all-zero one (ASE's own reading; reverting a
+            # Hamiltonian trial writes the remembered - possibly zero - momenta back)
+            if name != "momenta" or any(present[2]):
+                out.append((f"arrays:{name}:{'appeared' if x is None else 'disappeared'}",
+                            "the set of per-atom arrays changed"))
             continue
         if x != y:
             if x[0] != y[0]:
